@@ -21,6 +21,8 @@ def trace_lines(trace, limit=4000):
             fn = loc.get('function', '')
             if fn.startswith('__CPROVER_contracts') and 'dynamic_object' not in s.get('lhs', ''):
                 continue
+            if s.get('lhs', '').startswith(('__car_', '__CPROVER_', '__dfcc', 'tmp_cc', '__contract', '__write_set', 'return_value___')):
+                continue
             out.append('%s = %s    [%s:%s %s]' % (s.get('lhs'), v.get('data', v.get('name')), os.path.basename(loc.get('file', '')), loc.get('line', ''), fn))
         elif s.get('stepType') == 'failure':
             out.append('FAILURE: %s  [%s]' % (s.get('reason', ''), s.get('property', '')))
